@@ -324,3 +324,22 @@ class _Table(_LazyAxioms):
 
 
 UNITS.append(text_repr_unit())
+
+
+# ------------------------------------------------------------------------------------------------ small row helpers used by text_repr by contract
+def row_helper_units():
+    cl = lambda c: Select(c.fld('CellList', 'celems'), Select(c.fld('_TextTableRow', 'cells'), c['self']))
+    nn = ('row-with-a-cell-list', lambda c: And(c['self'] != ROW.null, Select(c.fld('_TextTableRow', 'cells'), c['self']) != CELLS.null))
+
+    def build_get():
+        fc = {'sig': {'self': ROW, 'idx': INT}, 'requires': [nn, ('index-in-range', lambda c: And(0 <= c['idx'], c['idx'] < LC.len(cl(c))))],
+              'ensures': [('C20/returns-the-cell-at-the-index', lambda c: c.result.e == LC.at(cl(c), c['idx']))]}
+        return Engine(F, '_TextTableRow.get_cell', {}, CLASSES, fc, plugins=[TextPlugin()]), []
+
+    def build_len():
+        fc = {'sig': {'self': ROW}, 'requires': [nn], 'ensures': [('C20/number-of-cells', lambda c: c.result.e == LC.len(cl(c)))]}
+        return Engine(F, '_TextTableRow.__len__', {}, CLASSES, fc, plugins=[TextPlugin()]), []
+    return [Unit('_TextTableRow.get_cell', F, build_get, ['C20']), Unit('_TextTableRow.__len__', F, build_len, ['C20'])]
+
+
+UNITS += row_helper_units()
